@@ -4,6 +4,8 @@ import (
 	"bytes"
 	"context"
 	"fmt"
+	"github.com/thushan/olla/internal/adapter/stats"
+	"github.com/thushan/olla/internal/core/domain"
 	"io"
 	"math/rand"
 	"net/http"
@@ -61,6 +63,8 @@ func TestC19(t *testing.T) {
 	}
 	wg.Wait()
 	run.Require("gauge_checks_during_failover", int64(reps))
+	modelScope(run)
+	run.Require("model_scope_trials", int64(rep.Pick(200, 3000)/map[bool]int{true: 4, false: 1}[rep.Mode() == "race"]))
 	run.Require("worlds_compared", int64(6*reps))
 	run.Require("gauge_states_matched", int64(6*reps*rep.Pick(3, 10)))
 	run.Require("requests_sent", int64(6*reps*rep.Pick(300, 1500)))
@@ -525,10 +529,69 @@ func runWorld(run *rep.Run, rng *rand.Rand, eng, bal string, id int) {
 			run.Violation("C19/translator/success-not-recorded", fmt.Sprintf("translator %s recorded %d successes, clients got %d complete 2xx answers", name, S, anthOK.Load()), w2)
 		}
 	}
-	// model scope: conservation only
+	// model scope: conservation (in this snapshot the engines never feed the per-model counters;
+	// the component itself is exercised in modelScope below)
 	for m, ms := range col.GetModelStats() {
 		if ms.TotalRequests != ms.SuccessfulRequests+ms.FailedRequests {
 			run.Violation("C19/model/not-conserved", fmt.Sprintf("model %s: total %d != %d + %d", m, ms.TotalRequests, ms.SuccessfulRequests, ms.FailedRequests), wit(map[string]any{}))
+		}
+	}
+}
+
+// modelScope drives the statistics collector's per-model counters directly (the exported
+// RecordModelRequest of the collector every engine records into): from a cold start, many
+// goroutines released together record requests for a few model names; afterwards every model's
+// total must equal the number of requests recorded for it, and total = successes + failures.
+func modelScope(run *rep.Run) {
+	trials := rep.Pick(200, 3000)
+	if rep.Mode() == "race" {
+		trials = rep.Pick(50, 750)
+	}
+	rng := rand.New(rand.NewSource(rep.Seed() + 4242))
+	ep := &domain.Endpoint{Name: "n0", URLString: "http://10.3.0.1:11434"}
+	for t := 0; t < trials; t++ {
+		col := stats.NewCollector(world.Logger())
+		G := 8 + rng.Intn(56)
+		per := 1 + rng.Intn(4)
+		models := []string{"mall", "mtra", "m3"}[:1+rng.Intn(3)]
+		var want [3][2]atomic.Int64 // per model: successes, failures
+		start := make(chan struct{})
+		var wg sync.WaitGroup
+		for g := 0; g < G; g++ {
+			wg.Add(1)
+			go func(g int) {
+				defer wg.Done()
+				<-start
+				for k := 0; k < per; k++ {
+					mi := (g + k) % len(models)
+					if (g*7+k)%3 == 0 {
+						col.RecordModelRequest(models[mi], ep, "failure", time.Millisecond, 10)
+						want[mi][1].Add(1)
+					} else {
+						col.RecordModelRequest(models[mi], ep, stats.StatusSuccess, time.Millisecond, 10)
+						want[mi][0].Add(1)
+					}
+				}
+			}(g)
+		}
+		close(start)
+		wg.Wait()
+		run.Count("model_scope_trials", 1)
+		if t%50 == 0 {
+			run.Eval(fmt.Sprintf("model-scope/G=%d/per=%d/models=%d", G, per, len(models)))
+		} else {
+			run.EvalN(1)
+		}
+		ms := col.GetModelStats()
+		for i, m := range models {
+			s, f := want[i][0].Load(), want[i][1].Load()
+			got := ms[m]
+			if got.TotalRequests != got.SuccessfulRequests+got.FailedRequests {
+				run.Violation("C19/model/not-conserved", fmt.Sprintf("model %s: total %d != %d + %d", m, got.TotalRequests, got.SuccessfulRequests, got.FailedRequests), map[string]any{"goroutines": G})
+			}
+			if got.TotalRequests != s+f || got.SuccessfulRequests != s || got.FailedRequests != f {
+				run.Violation("C19/model/requests-not-recorded-exactly-once", fmt.Sprintf("model %s: %d successes and %d failures were recorded by %d goroutines from a cold start; the collector reports total %d, successes %d, failures %d", m, s, f, G, got.TotalRequests, got.SuccessfulRequests, got.FailedRequests), map[string]any{"goroutines": G, "per_goroutine": per})
+			}
 		}
 	}
 }
